@@ -21,6 +21,32 @@ def pipelines(vecs, rng, per_cmd):
     return out
 
 
+BIGLEN = {"s:big64a": 65536, "s:big64b": 65536, "s:big70": 70001, "s:big63": 65535, "k1": 2, "k2": 2, "k3": 2}
+
+
+def big_cuts():
+    """The stream ends inside a bulk string of 64 KiB or more that follows complete requests with equally large (and
+    larger, and smaller) bulk strings: whatever those left in a buffer the parser keeps must not complete the cut one."""
+    def enc_len(args):
+        n = len("*%d\r\n" % (len(args) + 1)) + len("$3\r\nSET\r\n")
+        for a in args:
+            n += len("$%d\r\n" % BIGLEN[a]) + BIGLEN[a] + 2
+        return n
+    setr = lambda k, v: {"cls": "set", "name": "SET", "args": [tok("key", k), tok("str", v)]}
+    out = []
+    for before, last in (([("k1", "s:big64a")], ("k2", "s:big64b")), ([("k1", "s:big70")], ("k2", "s:big64b")),
+                         ([("k1", "s:big63")], ("k2", "s:big64a")), ([("k1", "s:big64a"), ("k2", "s:big64b")], ("k3", "s:big64a"))):
+        pre = sum(enc_len(list(r)) for r in before)
+        hdr = enc_len([last[0]]) + len("$%d\r\n" % BIGLEN[last[1]])          # bytes of the last request before its big payload
+        n = BIGLEN[last[1]]
+        for k in (1, 4096, n // 2, n - 1, n, n + 1):
+            for how in ("halfclose", "fullclose"):
+                out.append({"handler": "rec", "tracer": True, "nconns": 1, "steps": [
+                    {"c": 0, "op": "send", "chunking": "whole", "cut": pre + hdr + k, "reqs": [setr(*r) for r in before] + [setr(*last)]},
+                    {"c": 0, "op": how}]})
+    return out
+
+
 def run(ctx):
     thorough = ctx.tier == "thorough"
     ctx.build()
@@ -41,6 +67,7 @@ def run(ctx):
             for how in ("halfclose", "fullclose"):
                 scenarios.append({"handler": "rec", "tracer": True, "nconns": 1,
                                   "steps": [{"c": 0, "op": "send", "chunking": "whole", "cutall": True, "reqs": p}, {"c": 0, "op": how}]})
+        scenarios += big_cuts()
     ctx.stage("generate")
     accepted, scs, lines = connlib.run_scenarios(ctx, scenarios, "c11")
     groups = connlib.report(ctx, accepted, scs, lines, None)
